@@ -5,11 +5,29 @@ type nat =
 | O
 | S of nat
 
+val fst : ('a1 * 'a2) -> 'a1
+
 val snd : ('a1 * 'a2) -> 'a2
 
 val length : 'a1 list -> nat
 
 val app : 'a1 list -> 'a1 list -> 'a1 list
+
+type comparison =
+| Eq
+| Lt
+| Gt
+
+val add : nat -> nat -> nat
+
+type positive =
+| XI of positive
+| XO of positive
+| XH
+
+type n =
+| N0
+| Npos of positive
 
 module Nat :
  sig
@@ -18,11 +36,98 @@ module Nat :
   val ltb : nat -> nat -> bool
  end
 
+module Pos :
+ sig
+  type mask =
+  | IsNul
+  | IsPos of positive
+  | IsNeg
+ end
+
+module Coq_Pos :
+ sig
+  val succ : positive -> positive
+
+  val pred_double : positive -> positive
+
+  type mask = Pos.mask =
+  | IsNul
+  | IsPos of positive
+  | IsNeg
+
+  val succ_double_mask : mask -> mask
+
+  val double_mask : mask -> mask
+
+  val double_pred_mask : positive -> mask
+
+  val sub_mask : positive -> positive -> mask
+
+  val sub_mask_carry : positive -> positive -> mask
+
+  val size : positive -> positive
+
+  val compare_cont : comparison -> positive -> positive -> comparison
+
+  val compare : positive -> positive -> comparison
+
+  val eqb : positive -> positive -> bool
+
+  val iter_op : ('a1 -> 'a1 -> 'a1) -> positive -> 'a1 -> 'a1
+
+  val to_nat : positive -> nat
+
+  val of_succ_nat : nat -> positive
+ end
+
+module N :
+ sig
+  val succ_double : n -> n
+
+  val double : n -> n
+
+  val sub : n -> n -> n
+
+  val compare : n -> n -> comparison
+
+  val eqb : n -> n -> bool
+
+  val leb : n -> n -> bool
+
+  val size : n -> n
+
+  val pos_div_eucl : positive -> n -> n * n
+
+  val div_eucl : n -> n -> n * n
+
+  val div : n -> n -> n
+
+  val modulo : n -> n -> n
+
+  val to_nat : n -> nat
+
+  val of_nat : nat -> n
+ end
+
+val zero : char
+
+val one : char
+
+val shift : bool -> char -> char
+
+val ascii_of_pos : positive -> char
+
+val ascii_of_N : n -> char
+
+val ascii_of_nat : nat -> char
+
 val map : ('a1 -> 'a2) -> 'a1 list -> 'a2 list
 
 val forallb : ('a1 -> bool) -> 'a1 list -> bool
 
-val eqb : char list -> char list -> bool
+val eqb0 : char list -> char list -> bool
+
+val append : char list -> char list -> char list
 
 type err =
 | ErrValue
@@ -47,11 +152,23 @@ val mem_str : char list -> char list list -> bool
 
 val list_str_eqb : char list list -> char list list -> bool
 
+val digit_char : nat -> char
+
+val dec_N_fuel : nat -> n -> char list -> char list
+
+val dec_N : n -> char list
+
+val dec_nat : nat -> char list
+
 type sexp =
 | SAtom of char list
 | SList of sexp list
 
 val s_strs : char list list -> sexp
+
+val s_nat : nat -> sexp
+
+val s_bool : bool -> sexp
 
 val s_tag : char list -> sexp list -> sexp
 
@@ -98,5 +215,48 @@ val gen : jblock list -> char list list result
 val d_jblock : sexp -> jblock option
 
 val run_gen : sexp -> sexp
+
+type mrow = { m_py : char list; m_cpp : char list; m_inc : char list list;
+              m_ret : char list }
+
+type menv = { e_rows : mrow list; e_module : char list list;
+              e_builtins : (char list * char list) list }
+
+val lookup_row : char list -> mrow list -> mrow option
+
+val assoc : char list -> (char list * char list) list -> char list option
+
+type resolution =
+| RName of char list
+| RCrash
+
+val resolve : menv -> char list -> resolution
+
+val find_row : menv -> char list -> mrow option
+
+val acceptable : char list -> char list -> bool
+
+val cmath_sig : (char list * (nat * bool)) list
+
+val sig_of :
+  char list -> (char list * (nat * bool)) list -> (nat * bool) option
+
+val callable_from_query : char list -> bool
+
+val doc_ok : menv -> char list -> bool
+
+val s_row : mrow -> sexp
+
+val audit : menv -> char list list -> sexp
+
+val math_rows : mrow list
+
+val module_names : char list list
+
+val builtin_names : (char list * char list) list
+
+val documented : char list list
+
+val math_env : menv
 
 val dispatch : char list -> sexp -> sexp
